@@ -243,6 +243,115 @@ theorem C06_privileges (ixd prog : Bytes) (cfgs : List Meta) (metas app : List A
   intro ⟨x, hx, hk⟩ hro
   exact c ⟨x, List.mem_append_left _ hx, hk⟩ hro
 
+/-! ### what a failing call leaves behind -/
+
+/-- the traced loop agrees with the loop: same status, and on success the same metas -/
+theorem addIxLoopT_agrees (fetch : Bytes → Res (Option Bytes)) (ixd prog : Bytes) (cfgs : List Meta)
+    (known : List Acct) (metas : List AccountMeta) :
+    (addIxLoopT pda fetch ixd prog cfgs known metas).2 = (addIxLoop pda fetch ixd prog cfgs known metas).map (fun _ => ()) ∧
+    ∀ m', addIxLoop pda fetch ixd prog cfgs known metas = .ok m' → (addIxLoopT pda fetch ixd prog cfgs known metas).1 = m' := by
+  induction cfgs generalizing known metas with
+  | nil => simp [addIxLoopT, addIxLoop, Res.map]
+  | cons c rest ih =>
+    simp only [addIxLoopT, addIxLoop]
+    cases hr : resolveOne pda c ixd prog known metas with
+    | panic => simp [Res.map]
+    | err e => simp [Res.map]
+    | ok m =>
+      dsimp only
+      cases hf : fetch m.key with
+      | panic => simp [Res.map]
+      | err e => simp [Res.map]
+      | ok data => dsimp only; exact ih _ _
+
+theorem addCpiLoopT_agrees (ixd prog : Bytes) (pool : List Info) (cfgs : List Meta)
+    (infos : List Info) (metas : List AccountMeta) :
+    (addCpiLoopT pda ixd prog pool cfgs infos metas).2 = (addCpiLoop pda ixd prog pool cfgs infos metas).map (fun _ => ()) ∧
+    ∀ r, addCpiLoop pda ixd prog pool cfgs infos metas = .ok r → (addCpiLoopT pda ixd prog pool cfgs infos metas).1 = r := by
+  induction cfgs generalizing infos metas with
+  | nil => simp [addCpiLoopT, addCpiLoop, Res.map]
+  | cons c rest ih =>
+    simp only [addCpiLoopT, addCpiLoop]
+    cases hr : resolveOne pda c ixd prog (infos.map infoAcct) metas with
+    | panic => simp [Res.map]
+    | err e => simp [Res.map]
+    | ok m =>
+      dsimp only
+      cases hf : pool.find? (fun x => x.key = m.key) with
+      | none => simp [Res.map]
+      | some info => dsimp only; exact ih _ _
+
+/-- **After an error too.**  Whatever the off-chain helper's loop returns — success, an error from
+    an unresolvable config or a failed fetch — the metas it leaves in the instruction are the
+    untouched pre-existing ones followed by one de-escalated meta per config of a *prefix* of the
+    stored list, so `C06_privileges` applies to every one of them (with `cfgs.take k`). -/
+theorem C06_after_error_off_chain (fetch : Bytes → Res (Option Bytes)) (ixd prog : Bytes) (cfgs : List Meta)
+    (known : List Acct) (metas : List AccountMeta) :
+    ∃ k app, k ≤ cfgs.length ∧ (addIxLoopT pda fetch ixd prog cfgs known metas).1 = metas ++ app ∧
+      Appended pda ixd prog (cfgs.take k) metas app := by
+  induction cfgs generalizing known metas with
+  | nil => exact ⟨0, [], Nat.le_refl _, by simp [addIxLoopT], rfl, fun j hj => by simp at hj⟩
+  | cons c rest ih =>
+    have stop : ∃ k app, k ≤ (c :: rest).length ∧ metas = metas ++ app ∧ Appended pda ixd prog ((c :: rest).take k) metas app :=
+      ⟨0, [], Nat.zero_le _, by simp, rfl, fun j hj => by simp at hj⟩
+    simp only [addIxLoopT, resolveOne]
+    cases hr : resolve pda c ixd prog known with
+    | panic => simpa using stop
+    | err e => simpa using stop
+    | ok r =>
+      simp only []
+      cases hf : fetch (deEscalate r metas).key with
+      | panic => simpa using stop
+      | err e => simpa using stop
+      | ok data =>
+        simp only []
+        obtain ⟨k, app, hk, e1, e2, e3⟩ := ih (known ++ [⟨(deEscalate r metas).key, data⟩]) (metas ++ [deEscalate r metas])
+        refine ⟨k + 1, deEscalate r metas :: app, by simpa using hk, by simp [e1], by simp [e2], ?_⟩
+        intro j hj hc
+        cases j with
+        | zero => exact ⟨r, known, by simpa using hr, by simp⟩
+        | succ i =>
+          obtain ⟨r', kn, h1, h2⟩ := e3 i (by simpa using hj) (by simpa using hc)
+          refine ⟨r', kn, by simpa using h1, ?_⟩
+          simp only [List.getElem_cons_succ, List.take_succ_cons]
+          rw [h2]; simp
+
+/-- the CPI helper after any outcome: the same, and the infos it leaves are in lockstep with the
+    metas it leaves (C08's lockstep clause does not depend on the call succeeding) -/
+theorem C06_after_error_cpi (ixd prog : Bytes) (pool : List Info) (cfgs : List Meta)
+    (infos : List Info) (metas : List AccountMeta) :
+    ∃ k app appI, k ≤ cfgs.length ∧
+      (addCpiLoopT pda ixd prog pool cfgs infos metas).1 = (metas ++ app, infos ++ appI) ∧
+      Appended pda ixd prog (cfgs.take k) metas app ∧ appI.map (·.key) = app.map (·.key) := by
+  induction cfgs generalizing infos metas with
+  | nil => exact ⟨0, [], [], Nat.le_refl _, by simp [addCpiLoopT], ⟨rfl, fun j hj => by simp at hj⟩, rfl⟩
+  | cons c rest ih =>
+    have stop : ∃ k app appI, k ≤ (c :: rest).length ∧ (metas, infos) = (metas ++ app, infos ++ appI) ∧
+        Appended pda ixd prog ((c :: rest).take k) metas app ∧ appI.map (·.key) = app.map (·.key) :=
+      ⟨0, [], [], Nat.zero_le _, by simp, ⟨rfl, fun j hj => by simp at hj⟩, rfl⟩
+    simp only [addCpiLoopT, resolveOne]
+    cases hr : resolve pda c ixd prog (infos.map infoAcct) with
+    | panic => simpa using stop
+    | err e => simpa using stop
+    | ok r =>
+      simp only []
+      cases hf : pool.find? (fun x => x.key = (deEscalate r metas).key) with
+      | none => simpa using stop
+      | some info =>
+        simp only []
+        have hk' : info.key = (deEscalate r metas).key := by
+          have := List.find?_some hf; simpa using this
+        obtain ⟨k, app, appI, hk, e1, ⟨e2, e3⟩, e4⟩ := ih (infos ++ [info]) (metas ++ [deEscalate r metas])
+        refine ⟨k + 1, deEscalate r metas :: app, info :: appI, by simpa using hk, by simp [e1], ⟨by simp [e2], ?_⟩, by simp [e4, hk']⟩
+        intro j hj hc
+        cases j with
+        | zero => exact ⟨r, _, by simpa using hr, by simp⟩
+        | succ i =>
+          obtain ⟨r', kn, h1, h2⟩ := e3 i (by simpa using hj) (by simpa using hc)
+          refine ⟨r', kn, by simpa using h1, ?_⟩
+          simp only [List.getElem_cons_succ, List.take_succ_cons]
+          rw [h2]; simp
+
 /-! Non-vacuity: a writable config whose key is already present read-only is appended read-only. -/
 example : deEscalate ⟨[1], true, true⟩ [⟨[1], false, false⟩, ⟨[2], false, true⟩] = ⟨[1], false, false⟩ := by decide
 example : deEscalate ⟨[3], true, true⟩ [⟨[1], false, false⟩] = ⟨[3], false, true⟩ := by decide
